@@ -178,7 +178,7 @@ func ruleC02_2(c *Ctx, r *Rep) {
 		}
 		r.Check("C02.2", k, s.Pos, scoped, how, "mutation of delivery rows is neither addressed by delivery id nor scoped by `subscription_id = <resolved subscription>` on every path: it can touch another subscription's deliveries; where: "+c.predsString(s.Where))
 	}
-	r.Floor("C02.2", n, 13)
+	r.Floor("C02.2", n, 9)
 }
 
 // dependsOnSubscriptionLookup: v derives from the terminal of a select on subscriptions owned by the same function.
@@ -465,7 +465,7 @@ func ruleC03_3(c *Ctx, r *Rep) {
 			r.Check("C03.3", "C03.3:"+keys[s], s.Pos, in(c.Owner(s), fnPublish, fnDeadLetter), "bulk save in publish / dead-letter", "deliveries are bulk-created by "+c.Owner(s))
 		}
 	}
-	r.Floor("C03.3", n, 4)
+	r.Floor("C03.3", n, 3)
 	if del := r.Anchor("C03.3", fnDeliver); del != nil {
 		for _, ci := range c.callersOf(del) {
 			o := c.Key(top(ci.Parent()))
